@@ -331,3 +331,71 @@ VARIANTS += [
  tab_variant('table-error-local-not-returned', 'flagged(metadata/non-empty-)', table(loop=LOOP_ERR_LOCAL.replace('\tif missing != nil {\n\t\treturn missing\n\t}\n', '\tif missing != nil && len(metadata.Capabilities) == 0 {\n\t\treturn missing\n\t}\n'))),
  tab_variant('table-object-rewritten-by-call', 'flagged(metadata/non-empty-)', table(between='\t_ = json.Unmarshal([]byte(metadata.Description), metadata)\n')),
 ]
+
+# ---- round 4: the captured stderr must reach the error mapping on every failing exit of the process runner
+# ---- (seed C17-6: a three-way switch whose deadline arm returns nil for stderr, hidden in the extraction of executionError)
+SEED_HELPER = ('// executionError returns the error to report for a plugin command that failed\n// with err: the error the plugin printed to stderr if there is one, and\n'
+               '// otherwise an error telling whether the executable file or the plugin\n// implementation is to blame.\n'
+               'func executionError(logger log.Logger, pluginName string, command plugin.Command, stderr []byte, err error) error {\n'
+               '\tif len(stderr) == 0 {\n\t\t// if stderr is empty, it is possible that the plugin is not\n\t\t// running properly.\n'
+               '\t\tlogger.Errorf("failed to execute the %s command for plugin %s: %s", command, pluginName, err)\n\t\treturn &PluginExecutableFileError{\n\t\t\tInnerError: err,\n\t\t}\n\t}\n\n'
+               '\tvar re proto.RequestError\n\tif jsonErr := json.Unmarshal(stderr, &re); jsonErr != nil {\n'
+               '\t\tlogger.Errorf("failed to execute the %s command for plugin %s: %s", command, pluginName, strings.TrimSuffix(string(stderr), "\\n"))\n'
+               '\t\treturn &PluginMalformedError{\n\t\t\tInnerError: jsonErr,\n\t\t}\n\t}\n'
+               '\tlogger.Errorf("failed to execute the %s command for plugin %s: %s: %w", command, pluginName, re.Code, re)\n\treturn re\n}\n\n')
+SEED_STREAMS_OLD = ('\t// The limit writer will be handled by the caller in run() by comparing the\n\t// bytes written with the expected length of the bytes.\n'
+                    '\tcmd.Stderr = io.LimitWriter(&stderr, maxPluginOutputSize)\n\tcmd.Stdout = io.LimitWriter(&stdout, maxPluginOutputSize)\n')
+SEED_STREAMS_NEW = ('\t// a write beyond the limit fails, which makes cmd.Run() fail in turn\n'
+                    '\tcmd.Stdout = io.LimitWriter(&stdout, maxPluginOutputSize)\n\tcmd.Stderr = io.LimitWriter(&stderr, maxPluginOutputSize)\n')
+T_ERRORF = 'fmt.Errorf("\'%s %s\' command execution timeout: %w", name, string(command), err)'
+def r_switch(deadline='stderr.Bytes()', default='stderr.Bytes()'):
+    return ('\n\tswitch err := cmd.Run(); {\n\tcase err == nil:\n\t\treturn stdout.Bytes(), nil, nil\n\tcase errors.Is(ctx.Err(), context.DeadlineExceeded):\n'
+            '\t\treturn nil, ' + deadline + ', ' + T_ERRORF + '\n\tdefault:\n\t\treturn nil, ' + default + ', err\n\t}\n')
+def seed_variant(name, expect, why=None, **kw):
+    d = dict(name=name, file=P, expect=expect, find=RUN_OLD, replace=r_switch(**kw),
+             edits=[(P, MAP_OLD, '\t\treturn executionError(logger, pluginName, req.Command(), stderr, err)\n'), (P, MAP_HOOK, SEED_HELPER + MAP_HOOK), (P, SEED_STREAMS_OLD, SEED_STREAMS_NEW)])
+    if why: d['why'] = why
+    return d
+def run_variant(name, expect, body, why=None, edits=None):
+    d = dict(name=name, file=P, expect=expect, find=RUN_OLD, replace=body)
+    if edits: d['edits'] = edits
+    if why: d['why'] = why
+    return d
+def r_nest(timeout='stderr.Bytes()', other='stderr.Bytes()', pre='\terr := cmd.Run()\n', inner=''):
+    return (pre + '\tif err != nil {\n' + inner + '\t\tif errors.Is(ctx.Err(), context.DeadlineExceeded) {\n\t\t\treturn nil, ' + timeout + ', ' + T_ERRORF + '\n\t\t}\n'
+            '\t\treturn nil, ' + other + ', err\n\t}\n\treturn stdout.Bytes(), nil, nil\n')
+R_MERGED = ('\terr := cmd.Run()\n\tif err == nil {\n\t\treturn stdout.Bytes(), nil, nil\n\t}\n\tif errors.Is(ctx.Err(), context.DeadlineExceeded) {\n\t\terr = ' + T_ERRORF + '\n\t}\n\treturn nil, stderr.Bytes(), err\n')
+def single_exit2(deadline=''):
+    # named results; errOut is assigned in the arms of the failing branch
+    return ('\terr = cmd.Run()\n\tif err == nil {\n\t\tout = stdout.Bytes()\n\t} else if errors.Is(ctx.Err(), context.DeadlineExceeded) {\n' + deadline +
+            '\t\terr = ' + T_ERRORF + '\n\t} else {\n\t\terrOut = stderr.Bytes()\n\t}\n\treturn out, errOut, err\n')
+CAPTURED_H = 'func captured(b *bytes.Buffer) []byte {\n\treturn b.Bytes()\n}\n\n'
+VARIANTS += [
+ # the slip, in the seed's shape and in others
+ seed_variant('seed6-switch-deadline-arm-drops-stderr', 'flagged(runner/stderr-on-failure)', deadline='nil'),
+ seed_variant('seed6-switch-default-arm-drops-stderr', 'flagged(runner/stderr-on-failure)', default='nil'),
+ run_variant('timeout-exit-drops-stderr', 'flagged(runner/stderr-on-failure)', r_nest(timeout='nil')),
+ run_variant('plain-failure-exit-drops-stderr', 'flagged(runner/stderr-on-failure)', r_nest(other='nil')),
+ run_variant('failing-exit-returns-stdout-as-stderr', 'flagged(runner/stderr-on-failure)', r_nest(timeout='stdout.Bytes()')),
+ run_variant('stderr-bytes-taken-before-run', 'flagged(runner/stderr-on-failure)', r_nest(timeout='errBytes', other='errBytes', pre='\terrBytes := stderr.Bytes()\n\terr := cmd.Run()\n')),
+ run_variant('single-exit-deadline-arm-leaves-stderr-unset', 'flagged(runner/stderr-on-failure)', single_exit2(), edits=[(P, OUTF_OLD, OUTF_NAMED)]),
+ run_variant('stderr-local-only-when-not-timeout', 'flagged(runner/stderr-on-failure)',
+             '\terr := cmd.Run()\n\tif err == nil {\n\t\treturn stdout.Bytes(), nil, nil\n\t}\n\tvar errBytes []byte\n\tif errors.Is(ctx.Err(), context.DeadlineExceeded) {\n\t\terr = ' + T_ERRORF + '\n\t} else {\n\t\terrBytes = stderr.Bytes()\n\t}\n\treturn nil, errBytes, err\n'),
+ run_variant('stderr-helper-returns-nil-when-large', 'flagged(runner/stderr-on-failure)', r_nest(timeout='captured(&stderr)', other='captured(&stderr)'),
+             edits=[(P, VAL_HOOK, 'func captured(b *bytes.Buffer) []byte {\n\tif b.Len() > 4096 {\n\t\treturn nil\n\t}\n\treturn b.Bytes()\n}\n\n' + VAL_HOOK)]),
+ run_variant('stderr-buffer-reset-on-timeout', 'flagged(runner/stderr-on-failure/buffer-intact)', r_nest(inner='\t\tif ctx.Err() != nil {\n\t\t\tstderr.Reset()\n\t\t}\n')),
+ run_variant('timeout-helper-exit-drops-stderr', 'flagged(runner/stderr-on-failure)', R_TIMEOUT.replace('return nil, stderr.Bytes(), timeoutError', 'return nil, nil, timeoutError'), edits=[(P, VAL_HOOK, timeout_helper() + VAL_HOOK)]),
+ run_variant('start-then-wait-timeout-exit-drops-stderr', 'flagged(runner/stderr-on-failure)', start_wait().replace('\t\t\treturn nil, stderr.Bytes(), fmt.Errorf', '\t\t\treturn nil, nil, fmt.Errorf')),
+ # the same refactorings with the property kept
+ seed_variant('benign-seed6-twin-switch-both-arms-return-stderr', 'silent', why='the seed\'s patch (executionError extracted, three-way switch) with stderr.Bytes() in both failing arms'),
+ run_variant('benign-switch-in-base-tree', 'silent', r_switch(), why='only the three-way switch'),
+ run_variant('benign-stderr-local-shared-by-failing-arms', 'silent', r_nest(timeout='errBytes', other='errBytes', inner='\t\terrBytes := stderr.Bytes()\n'), why='one local taken after Run, returned by both failing arms'),
+ run_variant('benign-stderr-local-before-error-test', 'silent', r_nest(timeout='errBytes', other='errBytes', pre='\terr := cmd.Run()\n\terrBytes := stderr.Bytes()\n'), why='the bytes taken right after Run, before the error test'),
+ run_variant('benign-failing-returns-merged', 'silent', R_MERGED, why='success first; the error is wrapped on timeout and the two failing returns are one'),
+ run_variant('benign-single-exit-stderr-in-every-failing-arm', 'silent', single_exit2(deadline='\t\terrOut = stderr.Bytes()\n'), edits=[(P, OUTF_OLD, OUTF_NAMED)], why='named results, each failing arm assigns the captured stderr'),
+ run_variant('benign-stderr-through-helper', 'silent', r_nest(timeout='captured(&stderr)', other='captured(&stderr)'), edits=[(P, VAL_HOOK, CAPTURED_H + VAL_HOOK)], why='the bytes are taken by an unexported helper'),
+ run_variant('benign-stderr-cloned', 'silent', r_nest(timeout='bytes.Clone(stderr.Bytes())', other='bytes.Clone(stderr.Bytes())'), why='a copy of the captured bytes'),
+ run_variant('benign-stderr-also-on-success', 'silent', r_nest().replace('return stdout.Bytes(), nil, nil', 'return stdout.Bytes(), stderr.Bytes(), nil'), why='the success exit may hand on stderr too: the runner does not read it'),
+ run_variant('benign-stderr-buffer-preallocated', 'silent', r_nest(pre='\tstderr.Grow(512)\n\tstderr.Reset()\n\terr := cmd.Run()\n'), why='the buffer is touched before Run only'),
+ run_variant('benign-start-then-wait-stderr-local', 'silent', start_wait(wait='\terr := cmd.Wait()\n\terrBytes := stderr.Bytes()\n').replace('\t\t\treturn nil, stderr.Bytes(), fmt.Errorf', '\t\t\treturn nil, errBytes, fmt.Errorf').replace('\t\treturn nil, stderr.Bytes(), err\n\t}\n\treturn stdout', '\t\treturn nil, errBytes, err\n\t}\n\treturn stdout'), why='Start + Wait; the bytes taken after Wait'),
+]
